@@ -146,7 +146,7 @@ def frame_key(fm, route, rk, ck, iface=None):
 def neutral_key(iface, route):
     """the key of the other axis that leaves it alone: everything for assign / mask, nothing for drop"""
     if iface == 'drop':
-        return ('ilist', []) if route == 'iloc' else ('lablist', [])
+        return ('ilist', []) if route == 'iloc' else ('iloc', ('ilist', []))     # ILoc[[]]: no label resolution involved
     return NULL
 
 
@@ -850,7 +850,7 @@ def assign_keys(n, tier):
 
 def _assign_frame_cases(tier, group):
     if tier == 'quick':
-        mixes = ['i', 'if', 'ii', 'iii', 'ifU', 'iiii', 'iiff'] if group == 'unlabelled' else ['i', 'if', 'bO', 'iii', 'ifU', 'iiii', 'ifUO']
+        mixes = ['i', 'if', 'ii', 'iii', 'ifU', 'iiii', 'iiff'] if group == 'unlabelled' else ['i', 'if', 'iii', 'ifU', 'iiii', 'ifUO']
         rows_for = lambda m: (3,) if m >= 3 else (2, 4) if m == 2 else (1, 3)
     else:
         mixes = MIXES['thorough']
@@ -894,10 +894,11 @@ def _run_assign(repo, task, group):
                                                        'and the loc / getitem forms on str, int and auto-integer axes') +
                       '; every value shape for non-slice keys, two rotating value shapes per slice key. Non-trivial: >= 1 cell addressed',
                  bound=f'columns <= 4, rows <= 4, dtypes int64/float64(NaN)/bool/<U2/object, tier={tier}')
-    cases = _assign_frame_cases(tier, group)
-    cases += [('series', kind, n) for kind in ('ifbUO' if (group == 'unlabelled' or tier != 'quick') else 'ifO') for n in (0, 1, 2, 3, 4)]
+    # small case families first: a truncated run (time budget) then still covers every family
+    cases = [('series', kind, n) for kind in ('ifbUO' if (group == 'unlabelled' or tier != 'quick') else 'ifO') for n in (0, 1, 2, 3, 4)]
     if group == 'labelled':
-        cases += _bloc_assign_cases(tier) + _label_assign_cases(tier)
+        cases += _label_assign_cases(tier) + _bloc_assign_cases(tier)
+    cases += _assign_frame_cases(tier, group)
     for case in rep.shard(cases):
         try:
             if case[0] == 'series':
@@ -1026,7 +1027,7 @@ def _label_pairs(fm):
 
 def _dm_cases(tier):
     if tier == 'quick':
-        mixes = ['i', 'if', 'ii', 'bO', 'iii', 'ifU', 'iiii', 'iiff', 'ifUO']
+        mixes = ['i', 'if', 'ii', 'bO', 'iii', 'ifU', 'iiii', 'iiff']
         rows_for = lambda m: (3,) if m >= 3 else (2, 4) if m == 2 else (0, 1, 3)
     else:
         mixes = MIXES['thorough']
@@ -1040,6 +1041,8 @@ def _dm_cases(tier):
                     out.append(('frame', kinds, rows, [list(x) for x in lay], part))
     cost = {0: 10, 1: 60, 2: 200, 3: 500, 4: 1000}
     out.sort(key=lambda c: -(cost[len(c[1])] if c[4] == 'cols' else cost[c[2]]))
+    frames, out = out, []
+    # small case families first: a truncated run (time budget) then still covers every family
     out += [('series', kind, n, 'str') for kind in 'ifbUO' for n in (0, 1, 2, 3, 4)]
     for kinds, rows in (('ifU', 3), ('iiOb', 2)):
         cols = [col_array(k, j, rows) for j, k in enumerate(kinds)]
@@ -1050,7 +1053,7 @@ def _dm_cases(tier):
     for axk in ('str', 'int', 'auto', 'D', 'ih'):
         for n in (1, 3, 4):
             out.append(('series-label', 'i', n, axk))
-    return out
+    return out + frames
 
 
 def run_drop_mask(repo, task):
